@@ -52,6 +52,7 @@ def parseQuery (f : Fields) : Option QueryW := do
     | none => pure (.respScanRaw h b)
   | "fees" => pure (.q (.fees (← afld f "prov")))
   | "params" => pure (.q .params)
+  | "schema" => pure (.q (.schema (← afld f "name")))
   | _ => none
 
 def bindingRec (k : SvcName × Addr) (b : Binding) : String :=
@@ -84,6 +85,8 @@ def answerRecs : Answer → List String
   | .responses l => l.map (fun e => respRec (hexOfReqId e.1) (some e.2))
   | .fees p n => [s!"EF {dash p} {n}"]
   | .params p => [paramsRec p]
+  | .schema .pricing => ["SCH pricing"]
+  | .schema .result => ["SCH result"]
 
 def be64Hex (n : Nat) : String := hexOfNat n 16
 
@@ -140,6 +143,7 @@ def runQuery (s : State) : QueryW → String × List String
     match query s q with
     | .error .unknownDefinition => ("R err ErrUnknownServiceDefinition", [])
     | .error .unknownBinding => ("R err ErrUnknownServiceBinding", [])
+    | .error .invalidSchemaName => ("R err ErrInvalidSchemaName", [])
     | .ok a => ("R ok", sortLines (answerRecs a))
 
 end SM.Wire
